@@ -283,7 +283,7 @@ namespace hs
         else if (profile == "C18")
         {
             sut = any_user();
-            if (has(sut, "ll."))
+            if (sut.compare(0, 3, "ll.") == 0)
                 sut = pick(r, POOLS);
         }
         else if (profile == "C03")
@@ -312,7 +312,7 @@ namespace hs
 
         bool is_temp = sut == "temp";
         bool is_pool = has(sut, "pool."), is_coll = has(sut, "coll."), is_stack = has(sut, "stack.") || is_temp,
-             is_iter = has(sut, "iter"), is_arena = has(sut, "arena."), is_ll = has(sut, "ll."),
+             is_iter = has(sut, "iter"), is_arena = has(sut, "arena."), is_ll = sut.compare(0, 3, "ll.") == 0, // (not has(): "coll." contains "ll.")
              is_static = sut == "static";
         bool arrays    = !has(sut, ".small.") && !is_arena;
         bool faultable = !has(sut, ".ST") && !is_static;
@@ -510,6 +510,10 @@ namespace hs
                     ++live;
                     break;
                 }
+                if ((is_pool || is_coll) && r.chance(1, 10))
+                    p.add("an", {obj(), fam, (long long)r.size_biased(0, 4000), (long long)r.pick({0, 0, 1, 2, 3}), 1},
+                          fault()); // exactly at the limit
+                else
                 p.add("an", {obj(), fam, (long long)r.size_biased(0, 4000), (long long)r.pick({0, 0, 1, 2, 3, 3, 4, 4, 5, 6, 8, 12})},
                       fault());
                 ++live;
